@@ -598,7 +598,17 @@ def witness_cases():
     return [(f, c, R.json_to_ir(j)) for f, c, j in WITNESSES.values()]
 
 
-THEOREMS = []
+THEOREMS = ["C02.C02_class", "C02.C02_pydantic", "C02.C02_function", "C02.C02_argparse",
+            "C02.argparse_zero_default", "C02.C02_full_fails_argparse_zero_default",
+            "C02.argparse_bool_optional", "C02.C02_full_fails_argparse_bool_optional",
+            "C02.argparse_nonscalar_str", "C02.C02_full_fails_argparse_nonscalar_str",
+            "C02.argparse_union_narrowed", "C02.C02_full_fails_argparse_union_narrowed",
+            "C02.argparse_none_default_dropped", "C02.C02_full_fails_argparse_none_default_dropped",
+            "C02.class_typ_dropped_code_default", "C02.C02_full_fails_typ_dropped_code_default",
+            "C02.function_negative_under_str_type", "C02.C02_full_fails_function_negative_under_str_type",
+            "C02.function_return_typ_dropped", "C02.C02_full_fails_function_return_typ_dropped",
+            "C02.function_return_default_code_quoted", "C02.C02_full_fails_function_return_default_code_quoted",
+            "C02.argparse_return_code_quoted", "C02.C02_full_fails_argparse_return_code_quoted"]
 
 
 def run(chk: core.Check) -> int:
@@ -626,7 +636,7 @@ def run(chk: core.Check) -> int:
         if not hit:
             chk.notes.append("witness of %s no longer fails with its signature (stale finding?) — %d failures" % (wid, len(fails)))
     # ---- (2) main stream: generated interfaces x all configurations ---------------------------------------------
-    n_ir = 110 if chk.quick else 2200
+    n_ir = 300 if chk.quick else 5000
     cases = gen_cases(rng, n_ir)
     recs = []
     B = 4200
@@ -662,7 +672,7 @@ def run(chk: core.Check) -> int:
             chk.sample({"fmt": rec["fmt"], "cfg": rec["cfg"], "ir": rec["irj"], "src": rec["real"].get("src"), "parsed_view": view(rec["real"]["parsed"]) if "parsed" in rec["real"] else None,
                         "in_D02": in_dom, "doc_hyp": hyp, "failures": [t for _, t in fails][:3]})
     # ---- (3) parse-only stream -----------------------------------------------------------------------------------
-    srcs = gen_parse_sources(rng, 400 if chk.quick else 6000)
+    srcs = gen_parse_sources(rng, 1500 if chk.quick else 20000)
     preals = core.pmap(real_parse_source, srcs, chunksize=32)
     pmodels = core.model_batch([{"op": "c02.parse", "fmt": f, "ast": r["reparsed"], "env": r["env"]} for (f, _), r in zip(srcs, preals)])
     for (f, src), r, mp in zip(srcs, preals, pmodels):
@@ -670,7 +680,7 @@ def run(chk: core.Check) -> int:
         compare(chk, rec, stats, "parse-only")
         chk.count(("parse-only", f, src), False)
     # ---- (4) outside the domain: descriptions with ad-hoc type triggers (correspondence only) --------------------
-    tcases = gen_cases(rng, 12 if chk.quick else 150, trigger_docs=True)
+    tcases = gen_cases(rng, 30 if chk.quick else 400, trigger_docs=True)
     for rec in run_cases(chk, tcases, "triggers"):
         compare(chk, rec, stats, "triggers")
         chk.count(("trigger", rec["fmt"], json.dumps(rec["cfg"], sort_keys=True), json.dumps(rec["irj"], sort_keys=True)), False)
